@@ -43,6 +43,14 @@ PROFILES = {
     ),
 }
 
+# Miri interprets the worker; there is no binary to start, every shard goes through `cargo miri run`
+MIRI_ENV = {
+    # isolation off: the worker writes its checkpoint/result files; Tree Borrows is the aliasing model
+    # (the crate's intrusive lists and raw-pointer tables are written against raw pointers throughout)
+    "MIRIFLAGS": "-Zmiri-disable-isolation -Zmiri-tree-borrows -Zmiri-ignore-leaks",
+}
+MIRI_CMD = ["cargo", "+nightly", "miri", "run", "--offline", "--bin", "worker", "--"]
+
 _built = {}
 
 
@@ -50,6 +58,20 @@ def build(profile):
     """(Re)build the worker for a profile from /repo's current working tree. Returns binary path or None."""
     if profile in _built:
         return _built[profile]
+    if profile == "miri":
+        env = dict(ENV)
+        env.update(MIRI_ENV)
+        env["CARGO_TARGET_DIR"] = os.path.join(BUILD, "miri")
+        t0 = time.time()
+        p = subprocess.run(MIRI_CMD + ["selftest"], cwd=HARNESS, env=env, stdout=subprocess.PIPE, stderr=subprocess.STDOUT, text=True)
+        dt = time.time() - t0
+        if p.returncode != 0 or "caoverif-selftest-ok" not in p.stdout:
+            log(f"[build:miri] FAILED in {dt:.1f}s\n" + p.stdout[-4000:])
+            _built[profile] = None
+            return None
+        log(f"[build:miri] ok in {dt:.1f}s")
+        _built[profile] = "MIRI"
+        return "MIRI"
     tc, cargs, tdir, binrel, extra = PROFILES[profile]
     env = dict(ENV)
     env.update(extra)
@@ -66,6 +88,24 @@ def build(profile):
     log(f"[build:{profile}] ok in {dt:.1f}s")
     _built[profile] = binp
     return binp
+
+
+def worker_cmd(binp):
+    return list(MIRI_CMD) if binp == "MIRI" else [binp]
+
+
+def worker_env(binp, spec=None):
+    env = dict(ENV)
+    if spec:
+        env.update(spec.get("env", {}))
+    if binp == "MIRI":
+        env.update(MIRI_ENV)
+        env["CARGO_TARGET_DIR"] = os.path.join(BUILD, "miri")
+    return env
+
+
+def worker_cwd(binp):
+    return HARNESS if binp == "MIRI" else VERIF
 
 
 # ------------------------------------------------------------------ running shards
@@ -98,7 +138,7 @@ class Shard:
         for f in (out, out + ".inflight", out + ".stderr"):
             if os.path.exists(f):
                 os.remove(f)
-        cmd = [self.binp, self.spec["engine"], "--seed", str(self.seed), "--shard", str(self.idx),
+        cmd = (MIRI_CMD if self.binp == "MIRI" else [self.binp]) + [self.spec["engine"], "--seed", str(self.seed), "--shard", str(self.idx),
                "--nshards", str(self.nshards), "--cases", str(self.cases), "--tier", self.tier,
                "--out", out, "--start-at", str(self.start_at)]
         if self.skip:
@@ -107,8 +147,13 @@ class Shard:
             cmd += [f"--x-{k}", str(v)]
         env = dict(ENV)
         env.update(self.spec.get("env", {}))
+        cwd = VERIF
+        if self.binp == "MIRI":
+            env.update(MIRI_ENV)
+            env["CARGO_TARGET_DIR"] = os.path.join(BUILD, "miri")
+            cwd = HARNESS
         self.stderr_f = open(out + ".stderr", "wb")
-        self.proc = subprocess.Popen(cmd, cwd=VERIF, env=env, stdout=subprocess.DEVNULL, stderr=self.stderr_f)
+        self.proc = subprocess.Popen(cmd, cwd=cwd, env=env, stdout=subprocess.DEVNULL, stderr=self.stderr_f, start_new_session=True)
         self.t0 = time.time()
 
     def read_json(self, path):
@@ -132,7 +177,10 @@ class Shard:
                 stalled = time.time() - self.t0 > self.spec.get("stall_s", 30) + 30
             if stalled or time.time() - self.t0 > timeout_s:
                 timed_out = True
-                self.proc.kill()
+                try:
+                    os.killpg(self.proc.pid, 9)
+                except OSError:
+                    self.proc.kill()
                 self.proc.wait()
                 rc = -9
             else:
@@ -160,7 +208,8 @@ class Shard:
         self.crashes.append({
             "engine": self.spec["engine"], "profile": self.spec.get("profile", "dev"), "shard": self.idx,
             "case_idx": case_idx, "rc": rc, "timed_out": timed_out, "notes": notes,
-            "stderr": stderr[-6000:], "wall_s": time.time() - self.t0,
+            # sanitizer reports start with the headline and can be long: keep both ends
+            "stderr": stderr if len(stderr) <= 12000 else stderr[:6000] + "\n[...]\n" + stderr[-6000:], "wall_s": time.time() - self.t0,
         })
         if res:
             self.partials.append(res)
@@ -261,6 +310,15 @@ def classify_crash(c):
         if ev:
             return "violation", f"hang:{eng}:{ev[0][9:]}", f"worker killed by watchdog after {c['wall_s']:.0f}s; logical evidence: {ev}"
         return "hang", f"hang:{eng}", f"worker killed by watchdog after {c['wall_s']:.0f}s in case {c['case_idx']} (notes {c['notes']})"
+    m = re.search(r"error: (Undefined Behavior|unsupported operation|memory leaked|deadlock|abnormal termination|resource exhaustion|post-monomorphization error)[:.]? ?([^\n]*)", st) if c.get("profile") == "miri" else None
+    if m:
+        kind = m.group(1)
+        what = re.sub(r"alloc\d+|0x[0-9a-f]+|\d+", "#", m.group(2))[:90]
+        fm = re.search(r"inside `([^`]+)` at [^\n]*?cao-lang/src/([\w/]+\.rs)", st)
+        fr = f"{fm.group(2)}:{re.sub(r'<[^<>]*>', '<>', fm.group(1)).split('::')[-1]}" if fm else "?"
+        if kind in ("unsupported operation", "resource exhaustion"):
+            return "inconclusive", f"miri:{kind}", st[-2500:]
+        return "violation", f"miri:{kind}:{what}@{fr}", st[-3500:]
     m = re.search(r"ERROR: AddressSanitizer: ([\w-]+)", st)
     if m:
         fr = first_repo_frame(st) or "?"
@@ -279,7 +337,8 @@ def classify_crash(c):
 
 
 def dump_case(spec, seed, tier, case_idx):
-    binp = build(spec.get("profile", "dev")) or build("dev")
+    prof = spec.get("profile", "dev")
+    binp = (build(prof) if prof != "miri" else None) or build("dev")
     cmd = [binp, spec["engine"], "--seed", str(seed), "--nshards", "1", "--tier", tier,
            "--only-case", str(case_idx), "--dump-case"]
     for k, v in spec.get("args", {}).items():
@@ -361,12 +420,13 @@ def run_check(pid, cfg, tier, seed, replay=None):
         if spec is None:
             spec = {"engine": r.get("engine"), "profile": r.get("profile", "dev")}
         binp = build(spec.get("profile", "dev"))
-        cmd = [binp, spec["engine"], "--replay", replay]
+        if binp is None:
+            print(f"REPLAY build of profile {spec.get('profile', 'dev')} failed")
+            return 2
+        cmd = worker_cmd(binp) + [spec["engine"], "--replay", os.path.abspath(replay)]
         for k, v in spec.get("args", {}).items():
             cmd += [f"--x-{k}", str(v)]
-        env = dict(ENV)
-        env.update(spec.get("env", {}))
-        p = subprocess.run(cmd, cwd=VERIF, env=env)
+        p = subprocess.run(cmd, cwd=worker_cwd(binp), env=worker_env(binp, spec))
         if p.returncode not in (0, 1):
             print(f"REPLAY worker ended with status {p.returncode}")
             return 1
@@ -410,7 +470,7 @@ def run_check(pid, cfg, tier, seed, replay=None):
                     all_viol.append((sig, "regression witness " + fn + ": " + p.stdout[-800:], dict(w, witness=fn)))
                 else:
                     c = {"engine": w["engine"], "profile": w.get("profile", "dev"), "shard": 0, "case_idx": None, "rc": p.returncode,
-                         "timed_out": False, "notes": [], "stderr": p.stderr[-6000:], "wall_s": 0}
+                         "timed_out": False, "notes": [], "stderr": p.stderr if len(p.stderr) <= 12000 else p.stderr[:6000] + "\n[...]\n" + p.stderr[-6000:], "wall_s": 0}
                     kind, sig, detail = classify_crash(c)
                     all_viol.append((sig, "regression witness " + fn + ": " + detail, dict(w, witness=fn)))
             except subprocess.TimeoutExpired:
@@ -457,6 +517,9 @@ def run_check(pid, cfg, tier, seed, replay=None):
             if kind == "hang":
                 hangs.append((spec, c))
                 continue
+            if kind == "inconclusive":
+                inconclusive[sig] = inconclusive.get(sig, 0) + 1
+                continue
             case = dump_case(spec, seed, tier, c["case_idx"]) if c["case_idx"] is not None else None
             all_viol.append((sig, detail, {"engine": spec["engine"], "profile": spec.get("profile", "dev"),
                                            "case_idx": c["case_idx"], "seed": seed, "case": case, "crash": True}))
@@ -469,7 +532,7 @@ def run_check(pid, cfg, tier, seed, replay=None):
     # hangs: decided on an isolated re-run (design section 0: wall-clock alone never decides)
     for spec, c in hangs:
         label = f"hang in {spec['engine']} case {c['case_idx']}"
-        if cfg.get("hang_is_violation") and c["case_idx"] is not None:
+        if cfg.get("hang_is_violation") and c["case_idx"] is not None and spec.get("profile", "dev") != "miri":
             binp = build(spec.get("profile", "dev"))
             cmd = [binp, spec["engine"], "--seed", str(seed), "--nshards", "1", "--tier", tier, "--only-case", str(c["case_idx"])]
             for k, v in spec.get("args", {}).items():
